@@ -95,6 +95,9 @@ pub fn judge(plan: &ExecPlan, stats: &mut Stats, use_cache: bool) -> (Vec<(Strin
     if r.shared_locks > 0 {
         stats.inc("probe:shared_lock_contended");
     }
+    if r.contended_lazies > 0 {
+        stats.inc("probe:lazy_init_contended");
+    }
     if let Some(f) = &r.failure {
         let kind = if f.contains("deadlock") { "deadlock" } else { "execution_failed" };
         fails.push((
@@ -340,7 +343,7 @@ impl Prop for C05 {
     fn sanity(&self, stats: &Stats, _tier: Tier) -> Vec<String> {
         let mut e = vec![];
         if stats.c.get("runs") >= 500 {
-            for p in ["probe:shared_lock_contended", "compilations_compared"] {
+            for p in ["probe:shared_lock_contended", "probe:lazy_init_contended", "compilations_compared"] {
                 if stats.c.get(p) == 0 {
                     e.push(format!("{p} stuck at zero"));
                 }
